@@ -305,6 +305,9 @@ func (vc *VC) execBuiltin(fr *Frame, st *State, b *ssa.Builtin, c *ssa.CallCommo
 		a := arg(0)
 		if _, ok := c.Args[0].Type().Underlying().(*types.Slice); ok {
 			fr.env[v] = vc.def("Int", fmt.Sprintf("(s_cap %s)", a), "cap")
+		} else if _, ok := c.Args[0].Type().Underlying().(*types.Chan); ok {
+			fr.env[v] = vc.def("Int", fmt.Sprintf("(chancap %s)", a), "cap")
+			vc.fact(st.pc, fmt.Sprintf("(>= %s 0)", fr.env[v]))
 		} else {
 			vc.havocValue(fr, st, v, "cap")
 		}
